@@ -28,5 +28,13 @@ CHECKS = {
         'text': "Line.radialrange: tmin,tmax in [0,1], d=|point(t)-z| and for every tau in [0,1] dmin <= |point(tau)-z| <= dmax (nonlinear real arithmetic, all inputs). bezier_radialrange (Quadratic/Cubic): the polynomial handed to the root finder is d/dt|B(t)-z|^2, the result is the best candidate among {0,1} and the returned roots with its distance, for every number of roots. Path.radialrange/closest/farthest: extreme over all segments with the index of the segment attaining it (per shape).",
         'note': "Quadratic/Cubic global optimality is relative to polyroots01 returning every critical point in [0,1] (numpy.roots exact; C19 proves no isolated root is lost) and to the extreme-value lemma, both assumed; the bounded companion compares with dense sampling. Paths per shape (1..3 segments); Arc.radialrange is not implemented in the library.",
     },
+    'C08': {
+        'text': "Line.bbox: containment for every t in [0,1] and every side attained at an end point (all inputs). Cubic: bezier_real_minmax closed-form branch - every parameter it evaluates lies in [0,1], interior candidates are zeros of the derivative, every zero of the derivative in (0,1) is a candidate, min/max are the extreme values over the candidates and are attained (nonlinear real arithmetic, all coefficients); degenerate branch and QuadraticBezier.bbox: containment for every t and attainment, relative to the root finder returning the vertex; bezier_bounding_box splits into the two coordinate problems; Path.bbox is the union of the segment boxes (per shape).",
+        'note': "For the full-degree cubic, containment for all t follows from the proved clauses by the extreme-value lemma (assumed mathematics); the direct nonlinear proof is a thorough-tier obligation. Quadratic/degenerate cases are relative to the assumed contract of numpy.roots. Arc.bbox is not yet under contract (transcendental extremum condition). Floats as reals; the bounded companion checks containment and tightness against dense sampling.",
+    },
+    'C14': {
+        'text': "Path.area() on closed Bezier paths equals the closed line integral of x dy computed independently from the monomial coefficients (per shape, all control points), raises exactly when the path is not closed; area(reversed) = -area, translation invariance, area(scaled(sx,sy)) = sx*sy*area, area(transform(M)) = det(M)*area, through the real operations; orientation convention pinned on the unit square; path_encloses_pt returns the parity of the crossings Path.intersect reports for the probe pt->opt; is_contained_by follows its documented decision procedure (crossing -> False, start outside the box -> False, else enclosure of the start with a probe end strictly outside the box).",
+        'note': "That the line integral is the signed enclosed area (Green's theorem) and that crossing parity is enclosure (Jordan) are assumed mathematics. Enclosure clauses are relative to the contract of Path.intersect (C11/C12). Arc segments (chord approximation) are not under contract. Per shape (closed paths of 2..4 segments).",
+    },
 }
 
